@@ -231,7 +231,13 @@ func (rs *rowStore) memStoreSize() int {
 
 func (rs *rowStore) insert(insert *insert) {
 	verifCountSent(rs.t)
-	rs.inserts <- insert
+	select {
+	case rs.inserts <- insert:
+	case <-rs.t.db.closing:
+		// the row store has stopped (or is stopping): nobody would ever take the insert and
+		// Close would wait for this goroutine forever. The entry's offset is not recorded,
+		// so it is read again after a restart.
+	}
 }
 
 func (rs *rowStore) forceFlush() {
